@@ -272,6 +272,73 @@ def check(rep, F, tier, replay=None):
             if not ok:
                 rep.violation("IDX", "%s|add-without-take" % FNS[k], "%s adds an offered UTxO whose index is not taken out of the available collection in the same iteration: it can be selected again" % FNS[k], {"loc": facts.loc_str(t[0], fn_)})
 
+    # ---- SHARE: one available-index object per strategy arm ---------------------------------------------------------------
+    rep.rule("SHARE", "selection passes that can run one after the other in add_inputs_from (per-asset passes, the remaining-ADA pass, the fee top-up loop) work on the same available-index collection, so a UTxO taken by one pass cannot be taken again by a later one")
+    fid = ids["main"]
+    fn = F.fns[fid]
+    org = orgs["main"]
+    helper_calls = [c for c in F.calls(fid) if "cip2_" in (c.to or "")]
+    allocs = {}
+    for c in helper_calls:
+        t = fn["bbs"][c.bb]["t"]
+        allocs[c.bb] = {x for x in org.of_operand(t[3][2]) if "collect@" in x}
+    # the fee top-up loops' own takes from the set
+    for c in F.calls(fid):
+        if (c.to or "").endswith("BTreeSet::<T, A>::remove"):
+            t = fn["bbs"][c.bb]["t"]
+            allocs[c.bb] = {x for x in org.of_operand(t[3][0]) if "collect@" in x}
+    common_all = set.intersection(*allocs.values()) if allocs else set()
+    reach = {}
+
+    def reachable(a):
+        if a in reach:
+            return reach[a]
+        seen = set()
+        work = [s_ for s_ in F.succ(fn, a, with_unwind=False) if s_ is not None]
+        while work:
+            b = work.pop()
+            if b in seen or fn["bbs"][b]["c"]:
+                continue
+            seen.add(b)
+            work += [s_ for s_ in F.succ(fn, b, with_unwind=False) if s_ is not None]
+        reach[a] = seen
+        return seen
+
+    pairs = 0
+    for a in sorted(allocs):
+        for b in sorted(allocs):
+            if a == b or b not in reachable(a):
+                continue
+            pairs += 1
+            rep.inst("SHARE")
+            if not ((allocs[a] - common_all) & (allocs[b] - common_all)):
+                rep.violation("SHARE", "add_inputs_from|%s->%s" % (fn["bbs"][a]["t"][2]["to"].rsplit("::", 1)[-1], fn["bbs"][b]["t"][2]["to"].rsplit("::", 1)[-1]), "add_inputs_from runs a selection pass (%s) and later another one (%s) on a different available-index collection: a UTxO already taken by the first pass can be selected again, its value counted twice" % (facts.loc_str(fn["bbs"][a]["t"][0], fn), facts.loc_str(fn["bbs"][b]["t"][0], fn)), {})
+    rep.floor("ordered pairs of selection passes sharing an index collection", 5, pairs)
+
+    # ---- CREDIT: what the builder already holds is credited once ---------------------------------------------------------
+    rep.rule("CREDIT-once", "random-improve reads the selector of the running input total (what the builder already holds) only outside its loops: the existing holding is credited once and the surplus carried forward, not re-credited to every output")
+    import accumulators as A
+    ri = ids["ri"]
+    rfn = F.fns[ri]
+    rorg = orgs["ri"]
+    loops = A.loop_blocks(F, rfn)
+    n_cred = 0
+    for c in F.calls(ri):
+        to = c.to or ""
+        if not (to.endswith("Fn::call") or to.endswith("FnMut::call_mut") or to.endswith("FnOnce::call_once")):
+            continue
+        t = rfn["bbs"][c.bb]["t"]
+        o = set()
+        for a in t[3][1:]:
+            o |= rorg.of_operand(a)
+        if "arg:4" not in o:
+            continue
+        n_cred += 1
+        rep.inst("CREDIT-once")
+        if c.bb in loops:
+            rep.violation("CREDIT-once", "cip2_random_improve_by|in-loop", "cip2_random_improve_by evaluates the selector on the running input total inside a loop (%s): the amount already held is credited to every output instead of once" % facts.loc_str(t[0], rfn), {})
+    rep.floor("reads of the running input total through the selector in random-improve", 1, n_cred)
+
     # ---- LF -------------------------------------------------------------------------------------------------------------
     rep.rule("LF", "largest-first: a copy of the available indices is sorted by the selector and iterated in reverse; an input is added only on the not-yet-covered edge")
     names = {(c.to or "") for c in F.calls(lf)}
